@@ -6,8 +6,9 @@ would move the code away from the anchor.  Before any rule runs, every synchrono
 whose path is not in /verif/anchors/functions.txt (the functions that existed when the rules were written,
 i.e. the vocabulary of the rule tables) is inlined at its direct call sites (MIR level: locals renumbered,
 blocks appended, `return` turned into an assignment of the destination and a jump to the continuation).
-Functions of the vocabulary are never inlined - the rules refer to them by name.  Asynchronous helpers are
-not folded here (the interprocedural engines follow awaits by themselves).
+Functions of the vocabulary are never inlined - the rules refer to them by name.  An unknown *async* helper is
+folded at the point where its future is polled: the coroutine body replaces the `Future::poll` call (its state
+parameter is bound to the future, its `return` becomes `Poll::Ready(value)`), nested awaits stay awaits.
 """
 import copy
 import os
@@ -92,6 +93,131 @@ def inline_into(caller_j, site_bi, callee_j):
     for d in callee_j.get('dbg', []):
         p = d['pl']
         caller_j['dbg'].append({'n': d['n'], 'pl': {'l': l0 + p['l'], 'p': copy.deepcopy(p['p'])}})
+
+
+def _def_of(body_j, local):
+    """the unique whole-local definition statement / call of `local`: ('st', rv) | ('call', term) | None"""
+    found = []
+    for bl in body_j['blocks']:
+        if bl['cleanup']:
+            continue
+        for s in bl['st']:
+            if s['k'] == 'assign' and s['pl']['l'] == local and not s['pl']['p']:
+                found.append(('st', s['rv']))
+        t = bl['term']
+        if t['k'] == 'call' and t['dst']['l'] == local and not t['dst']['p']:
+            found.append(('call', t))
+    return found[0] if len(found) == 1 else None
+
+
+def _future_local(body_j, pin_operand):
+    """Pin::new_unchecked(&mut *(&mut fut)) -> the local holding the future"""
+    if pin_operand['k'] not in ('copy', 'move') or pin_operand['pl']['p']:
+        return None
+    d = _def_of(body_j, pin_operand['pl']['l'])
+    if d is None or d[0] != 'call' or not (d[1].get('fn') or '').endswith('Pin::<Ptr>::new_unchecked'):
+        return None
+    a = d[1]['args'][0]
+    for _ in range(4):
+        if a['k'] not in ('copy', 'move'):
+            return None
+        d = _def_of(body_j, a['pl']['l'])
+        if d is None or d[0] != 'st':
+            return None
+        rv = d[1]
+        if rv['k'] == 'ref':
+            pl = rv['pl']
+            if not pl['p']:
+                return pl['l']
+            if all(e['k'] == 'deref' for e in pl['p']):
+                a = {'k': 'copy', 'pl': {'l': pl['l'], 'p': []}}
+                continue
+            return None
+        if rv['k'] == 'use' and rv['ops'][0]['k'] in ('copy', 'move') and not rv['ops'][0]['pl']['p']:
+            a = rv['ops'][0]
+            continue
+        return None
+    return None
+
+
+def fold_async_at(caller_j, site_bi, callee_j, fut_local, poll_tid):
+    """replace the Future::poll call in block site_bi by the coroutine body of the awaited helper"""
+    blocks = caller_j['blocks']
+    call = blocks[site_bi]['term']
+    n0 = len(blocks)
+    l0 = len(caller_j['locals'])
+    caller_j['locals'] = list(caller_j['locals']) + list(callee_j['locals'])
+    lmap = lambda l: l0 + l
+    bmap = lambda b: n0 + b
+    cont = call['t']
+    dst = call['dst']
+    sp = call.get('sp')
+    st = blocks[site_bi]['st']
+    s1 = {'k': 'assign', 'pl': {'l': l0 + 1, 'p': []}, 'rv': {'k': 'use', 'ops': [{'k': 'copy', 'pl': {'l': fut_local, 'p': []}}]}}
+    s2 = {'k': 'assign', 'pl': {'l': l0 + 2, 'p': []}, 'rv': {'k': 'use', 'ops': [copy.deepcopy(call['args'][1])]}} if len(call['args']) > 1 else None
+    for s in (s1, s2):
+        if s is not None:
+            if sp is not None:
+                s['sp'] = sp
+            st.append(s)
+    blocks[site_bi]['term'] = {'k': 'goto', 't': n0}
+    for cb in callee_j['blocks']:
+        nb = {'cleanup': cb['cleanup'], 'st': _remap(cb['st'], lmap, bmap), 'term': _remap(cb['term'], lmap, bmap)}
+        _retarget(nb['term'], bmap)
+        if nb['term']['k'] == 'return' and not cb['cleanup']:
+            s = {'k': 'assign', 'pl': copy.deepcopy(dst),
+                 'rv': {'k': 'agg', 'ak': 'adt', 'p': 'std::task::Poll', 'v': 0, 'vn': 'Ready', 'a': [], 'dv': 0, 'dvs': [],
+                        'ops': [{'k': 'move', 'pl': {'l': l0, 'p': []}}]}}
+            if nb['term'].get('sp') is not None:
+                s['sp'] = nb['term']['sp']
+            nb['st'].append(s)
+            nb['term'] = {'k': 'goto', 't': cont} if cont >= 0 else {'k': 'unreachable'}
+        blocks.append(nb)
+    for d in callee_j.get('dbg', []):
+        p = d['pl']
+        caller_j['dbg'].append({'n': d['n'], 'pl': {'l': l0 + p['l'], 'p': copy.deepcopy(p['p'])}})
+
+
+def fold_unknown_async(facts_json, known):
+    """-> list of (caller path, async helper path) folded at their await"""
+    if known is None:
+        return []
+    bodies = {b['path']: b for b in facts_json['bodies']}
+    types = facts_json['types']
+    helpers = {}            # coroutine path -> async fn path
+    for p, b in bodies.items():
+        if b['coroutine'] and b.get('parent') and b['parent'] not in known and '::tests::' not in p \
+                and p not in known and len(b['blocks']) <= MAX_BLOCKS and p.endswith('::{closure#0}'):
+            helpers[p] = b['parent']
+    done = []
+    if not helpers:
+        return done
+    for _round in range(MAX_DEPTH):
+        changed = False
+        for p, b in bodies.items():
+            if '::tests::' in p or not b['coroutine']:
+                continue
+            bi = 0
+            while bi < len(b['blocks']):
+                t = b['blocks'][bi]['term']
+                if t['k'] == 'call' and t.get('fn') in ('futures::Future::poll', 'std::future::Future::poll', 'core::future::Future::poll') \
+                        and t.get('a') and not b['blocks'][bi]['cleanup']:
+                    ty = types[t['a'][0]] if 0 <= t['a'][0] < len(types) else None
+                    cp = None
+                    if ty is not None and ty.get('k') == 'coroutine':
+                        cp = ty.get('p')
+                    elif ty is not None and ty.get('k') == 'opaque' and ty.get('fn'):
+                        cp = ty['fn'] + '::{closure#0}'
+                    if cp in helpers and cp != p and len(b['blocks']) + len(bodies[cp]['blocks']) <= 4 * MAX_BLOCKS:
+                        fl = _future_local(b, t['args'][0])
+                        if fl is not None:
+                            fold_async_at(b, bi, bodies[cp], fl, t['a'][0])
+                            done.append((p, helpers[cp]))
+                            changed = True
+                bi += 1
+        if not changed:
+            break
+    return done
 
 
 def fold_unknown_helpers(facts_json, known):
